@@ -211,8 +211,11 @@ Definition patch_eqb (a b : patch) : bool :=
   list_eqb upd_eqb (p_updates a) (p_updates b) && ids_eqb (p_fixed a) (p_fixed b) && ids_eqb (p_intro a) (p_intro b).
 
 (* one configuration: the strategy table, the initial vulnerabilities, and what the real ComputePatches did
-   under each completion order (pc_traces: order of delivery, index of the returned list in pc_finals) *)
-Record ptrace := mkpt { pt_order : list task; pt_final : nat }.
+   under each completion order.  pt_order: the id list each PatchFunc invocation RECEIVED (copied at call
+   time), in order of delivery; pt_after: the same slices re-read when the invocation was let go (they differ
+   when the caller's slices alias); pt_final: index of the returned list in pc_finals.
+   The harness builds its tables so that they contain exactly the attempts the strategy will be asked for. *)
+Record ptrace := mkpt { pt_order : list task; pt_after : list task; pt_final : nat }.
 Record pcase := mkpc { pc_group : bool; pc_base : list N; pc_table : list (task * tres);
                        pc_traces : list ptrace; pc_finals : list (list patch) }.
 
@@ -254,22 +257,25 @@ Definition case_model_ok (c : pcase) : bool := forallb (trace_model_ok c) (pc_tr
    S1 every completion order returned the same list;
    S2 the list is strictly ascending under Patch.Compare (sorted, no duplicates);
    S3 every returned patch is the output of some attempt (with >= 1 update), and the output of every attempt
-      on a single initial vulnerability is in the list. *)
+      of the table is in the list;
+   S4 (always claimed) the id list handed to an attempt does not change while the attempt runs. *)
 Fixpoint strictly_ascending (l : list patch) : bool :=
   match l with
   | x :: ((y :: _) as r) => (patch_compare x y <? 0) && strictly_ascending r
   | _ => true
   end.
 
+Definition ids_stable (c : pcase) : bool :=
+  forallb (fun tr => list_eqb ids_eqb (pt_order tr) (pt_after tr)) (pc_traces c).
+
 Definition case_spec_ok (c : pcase) : bool :=
+  ids_stable c &&
   if hyps_ok c then
     forallb (fun tr => Nat.eqb (pt_final tr) 0) (pc_traces c) &&
     forallb (fun obs =>
        strictly_ascending obs &&
        forallb (fun p => existsb (patch_eqb p) (outputs (pc_table c))) obs &&
-       forallb (fun v => match lookup_task (pc_table c) [v] with
-                         | TOk p => match p_updates p with [] => true | _ => existsb (patch_eqb p) obs end
-                         | TErr => true end) (pc_base c)) (pc_finals c)
+       forallb (fun p => existsb (patch_eqb p) obs) (outputs (pc_table c))) (pc_finals c)
   else true.
 
 (* ------------------------------------------------------------------ witnesses and examples (data only) *)
@@ -296,7 +302,8 @@ Definition ex_p1 : patch := mkpatch [w_upd s_alpha v_2_0_0 (Some 6%Z)] [1] [11].
 Definition ex_p3 : patch := mkpatch [w_upd s_beta v_1_1_0 (Some 4%Z)] [1] [].
 Definition ex_case : pcase :=
   mkpc true [1; 2] [([1], TOk ex_p1); ([2], TErr); ([1; 11], TOk ex_p3)]
-       [mkpt [[1]; [2]; [1; 11]] 0; mkpt [[1]; [1; 11]; [2]] 0; mkpt [[2]; [1]; [1; 11]] 0]
+       [mkpt [[1]; [2]; [1; 11]] [[1]; [2]; [1; 11]] 0; mkpt [[1]; [1; 11]; [2]] [[1]; [1; 11]; [2]] 0;
+        mkpt [[2]; [1]; [1; 11]] [[2]; [1]; [1; 11]] 0]
        [[ex_p3; ex_p1]].
 Close Scope N_scope.
 
